@@ -40,8 +40,8 @@ func c07Alphabet() []nletter {
 	}
 	for _, p := range ptn {
 		for _, n := range stn {
-			out = append(out, nletter{Name: fmt.Sprintf("Bind(%q<-%q,v1/text)", p, n), Kind: "bind", A: p, B: n, Val: "v1", PF: 0, RF: -1,
-				Bytes: pgproto.Bind(p, n, nil, [][]byte{[]byte("v1")}, nil)})
+			out = append(out, nletter{Name: fmt.Sprintf("Bind(%q<-%q,v1/text)", p, n), Kind: "bind", A: p, B: n, Val: "v1", PF: 0, RF: 0,
+				Bytes: pgproto.Bind(p, n, []int16{0}, [][]byte{[]byte("v1")}, []int16{0})})
 			out = append(out, nletter{Name: fmt.Sprintf("Bind(%q<-%q,v2/binary)", p, n), Kind: "bind", A: p, B: n, Val: "v2", PF: 1, RF: 1,
 				Bytes: pgproto.Bind(p, n, []int16{1}, [][]byte{[]byte("v2")}, []int16{1})})
 		}
